@@ -314,9 +314,11 @@ CLAIMED['C03'] = dict(
          'propagates), C03_construction_fault_propagates, C03_output_hook_fault. Kept from before: the complete finite case space of one '
          'transition (C03_hook_fault_excepted, …). C03_stepper_returns_after_hook_fault_partial (the stepping task returns normally after a fault in '
          'any of ten transition hooks, for every program, plan and history; from the linking invariant Inv10 carried through every twin, '
-         'C03_hook_fault_never_reaches_the_stepping_task), C03_stepper_returns_configuration. NOT proved: the same for on_terminated / '
-         'on_close (def C03_stepper_returns_after_hook_fault; no counterexample in an exhaustive bounded search; decided on every '
-         'case of the harness by the correspondence and the monitor). Every case of the fault enumeration on the real code (every hook x occurrence x variant x scenario, listeners, '
+         'C03_hook_fault_never_reaches_the_stepping_task), C03_stepper_returns_configuration. '
+         'C03_stepper_returns_after_hook_fault_proved: the full statement (def C03_stepper_returns_after_hook_fault), all twelve '
+         'transition hooks, on_terminated / on_close included, under the hypothesis of C03_hook_fault_ends_excepted that the run did not '
+         'end in an error of the state machine itself (C03_terminated_with_fault_stays: that alternative is absorbing; '
+         'C03_hook_fault_never_reaches_the_stepping_task_any_hook). Every case of the fault enumeration on the real code (every hook x occurrence x variant x scenario, listeners, '
          'cleanups, call_soon, steps, output hooks, construction, requests issued by listeners) is compared with the model after every op.',
     note='Modelled, not verified: Process.step / pause / play / kill / fail / transition_to / transition_failed / on_terminated / close / '
          '_do_pause / CancellableAction.run / call_with_super_check with user overrides of every hook (hand-written twins of '
